@@ -1,4 +1,3 @@
-import EdpVerif.Generated.Misc
 /-!
 Model of `Node::make_reference` (`crates/edp_node/src/node.rs`): three separate `fetch_add(1)` on the node's
 `reference_counter : AtomicU32` (wrapping), then a load of `creation`. The same counter is bumped once by every remote
